@@ -13,3 +13,12 @@ for d in sorted(os.listdir('/verif/seeded')):
       "check_run":{"cmd":"git -C /repo apply patch.diff; ./check %s quick; git -C /repo checkout -- ."%c["property"],"exit":c["check_exit"],"detected":c["check_violation_lines"]>0,"obligations":c["check_obligations"]}}
     json.dump(meta,open('/verif/seeded/%s/meta.json'%d,'w'),indent=1)
     print(d, "DETECTED" if meta["check_run"]["detected"] else "missed", c["check_obligations"])
+
+# markdown table for DESIGN.md section 10.6
+rows=[]
+for d in sorted(os.listdir('/verif/seeded')):
+    p='/verif/seeded/%s/meta.json'%d
+    if not os.path.exists(p): continue
+    m=json.load(open(p))
+    rows.append("| %s | %s | %s | %s |"%(d,m["change"].replace("|","\\|"),"caught" if m["check_run"]["detected"] else "missed",", ".join("`%s`"%o.split("#")[-1] for o in m["check_run"]["obligations"][:3])))
+open('/verif/seeded/RESULTS.md','w').write("| seed | change | check %s | failing obligations |\n|---|---|---|---|\n"%"" + "\n".join(rows)+"\n")
